@@ -135,6 +135,17 @@ class Clo(object):
         return 'closure{%s}' % self.path.split('::')[-1]
 
 
+class FnV(object):
+    """a function item used as a value (e.g. a tuple-struct constructor passed to Option::map)"""
+    __slots__ = ('c', 'gargs')
+
+    def __init__(self, c, gargs):
+        self.c, self.gargs = c, gargs
+
+    def __repr__(self):
+        return 'fn{%s}' % self.c['path']
+
+
 class It(object):
     """slice iterator: pointer to the array, position"""
     __slots__ = ('rf', 'pos', 'n')
@@ -164,6 +175,8 @@ def val_key(v, ren=None):
         return ('un', ty_str(v.ty) if v.ty else '?')
     if isinstance(v, Clo):
         return ('clo', v.path)
+    if isinstance(v, FnV):
+        return ('fn', v.c['path'])
     if isinstance(v, It):
         return ('it', val_key(v.rf), v.pos, v.n)
     return ('?', repr(v))
@@ -559,7 +572,7 @@ class Interp(object):
     def const(self, st, fr, o):
         ty = subst_ty(o['ty'], fr.subst)
         if 'fn' in o:
-            return Un(ty, 'fn item')
+            return FnV(o['fn'], [subst_ty(a, fr.subst) for a in o['fn']['args']])
         if 'promoted' in o:
             return self.promoted(st, fr, o['promoted'], ty)
         n = scalar_name(ty)
@@ -1090,7 +1103,11 @@ class Interp(object):
         if t[0] != 'cmp':
             return False
         a, b = t[2], t[3]
-        return not vs_of(a, st.cons).single() and not vs_of(b, st.cons).single()
+        if not vs_of(a, st.cons).single() and not vs_of(b, st.cons).single():
+            return True
+        # one side constant: relational when the other side combines two or more tokens, e.g. (x ^ y) == 0x20
+        toks = [x for x in T.tokens_of(t) if not vs_of(x, st.cons).single()]
+        return len(toks) >= 2
 
     def do_assert(self, st, fr, t):
         c = self.operand(st, fr, t['cond'])
@@ -1182,6 +1199,15 @@ class Interp(object):
                 or path.startswith('core::result::unwrap_failed') or path.startswith('core::option::unwrap_failed'):
             self.finish(st, 'panic', None, site, path.split('::')[-1])
             return []
+        if c.get('kind', '').startswith('Ctor') and c.get('ctor_adt'):
+            v = Ag(c['ctor_adt'], int(c.get('ctor_variant', 0)), args)
+            if self.observe:
+                self.note_ctor(st, fr, site, v)
+            return self.done(st, fr, t, v)
+        if t['t'] is None and not c.get('local') and not c.get('trait'):
+            # a diverging library call (std::panicking::begin_panic, process::abort, ...) ends the path like a panic
+            self.finish(st, 'panic', None, site, path.split('::')[-1])
+            return []
         from . import models
         r = models.dispatch(self, st, fr, t, c, args, gargs, site)
         if r is not None:
@@ -1210,9 +1236,35 @@ class Interp(object):
             self.push(st, key, args, gargs, t['dest'], t['t'])
         return [st]
 
+    def call_fn_value(self, st, fv, call_args, on_ret):
+        c = fv.c
+        fr = st.top()
+        if c.get('kind', '').startswith('Ctor') and c.get('ctor_adt'):
+            v = Ag(c['ctor_adt'], int(c.get('ctor_variant', 0)), list(call_args))
+            if self.observe:
+                self.note_ctor(st, fr, (fr.key, fr.bb, 't'), v)
+            return on_ret(self, st, v)
+        from . import models
+        key = None
+        sub = fv.gargs
+        if c.get('trait'):
+            hit = models.find_impl(self, c['trait'], c['name'], fv.gargs)
+            if hit:
+                key, sub = hit
+            elif c.get('has_default') and c['path'] in self.F.fns:
+                key = c['path']
+        elif c.get('local') and c['path'] in self.F.fns:
+            key = c['path']
+        if key is None or key in self.F.ambiguous:
+            return None
+        self.push(st, key, list(call_args), sub, None, None, on_ret)
+        return [st]
+
     def call_closure(self, st, clo_val, call_args, on_ret):
         """invoke a closure value with already untupled arguments; on_ret(interp, st, val) continues"""
         clo = self.deref_all(st, clo_val)
+        if isinstance(clo, FnV):
+            return self.call_fn_value(st, clo, call_args, on_ret)
         if not isinstance(clo, Clo) or clo.path not in self.F.fns:
             return None
         body = self.F.fns[clo.path]['body']
